@@ -262,14 +262,14 @@ fn history_case(prop: &str, steps: Vec<Step>, root: &Path, idx: u64) -> CaseRec 
 /// must behave as they do in one session -- in particular scrut's own persist hook has to survive the option
 /// (`set -e`: a command of the hook that returns non-zero ends it before the state is written and replaces the
 /// exit code of the test case).
-const OPTIONS: [&str; 15] = ["set -o posix", "set -a", "set -x", "set -e", "set -u", "set -o pipefail", "set -e -o pipefail", "set -eu", "set -f", "set -C", "set -E", "set -T", "shopt -s nullglob", "shopt -s failglob", "shopt -s extglob; set -e"];
+const OPTIONS: [&str; 17] = ["unset OLDPWD; set -u", "OLDPWD=; set -u", "set -o posix", "set -a", "set -x", "set -e", "set -u", "set -o pipefail", "set -e -o pipefail", "set -eu", "set -f", "set -C", "set -E", "set -T", "shopt -s nullglob", "shopt -s failglob", "shopt -s extglob; set -e"];
 
 fn option_case(prop: &str, idx: u64, root: &Path) -> CaseRec {
     let opt = OPTIONS[(idx as usize) % OPTIONS.len()];
     // the second half switches extglob off again after it was on (the hook lists that option separately)
     // an alias is defined before the option and used after it (`alias` prints differently in POSIX mode)
     let pre = if idx as usize >= OPTIONS.len() { "shopt -s extglob; alias ll='echo aliased'" } else { "alias ll='echo aliased'" };
-    let show = "set -o | grep -E '^(errexit|nounset|pipefail|noglob|noclobber|errtrace|functrace) '; shopt -p nullglob failglob extglob || true; ll";
+    let show = "set -o | grep -E '^(errexit|nounset|pipefail|noglob|noclobber|errtrace|functrace) '; shopt -p nullglob failglob extglob || true; ll; echo \"OLDPWD=${OLDPWD-unset}\"";
     let exprs: Vec<String> = vec![pre.to_string(), format!("shopt -u extglob; {opt}"), "echo hi".into(), "X=kept".into(), format!("echo \"$X\"; {show}"), "(exit 3)".into(), "echo after".into()];
     let dir = root.join(format!("o-{idx}"));
     let _ = std::fs::remove_dir_all(&dir);
@@ -277,7 +277,7 @@ fn option_case(prop: &str, idx: u64, root: &Path) -> CaseRec {
     for d in [&wa, &wb, &tmp, &tmpb] {
         std::fs::create_dir_all(d).unwrap();
     }
-    let errexit = opt.contains("-e");
+    let errexit = opt.contains("-e") && !opt.contains("OLDPWD");
     // (a) per process
     let tcs: Vec<TestCase> = exprs
         .iter()
